@@ -7,3 +7,45 @@ package types
 
 //@ func (BridgeConfig) Validate
 //@   ensures err == nil ==> config.FinalizationPeriod > 0                                        // C05: period_positive
+//@   ensures err == nil ==> addrOK(ac, config.Challenger) && addrOK(ac, config.Proposer)        // C12: roles_are_addresses
+
+//@ func (BridgeConfig) ValidateWithNoAddrValidation
+//@   ensures err == nil ==> config.FinalizationPeriod > 0                                        // C05: period_positive
+
+//@ func GenerateOutputRoot
+//@   requires len(storageRoot) >= 32 && len(latestBlockHash) >= 32
+//@   ensures r == outputRoot(version, bslice(storageRoot, 0, 32), bslice(latestBlockHash, 0, 32))   // C17,C03: output_root_format
+//@   assigns \nothing
+
+//@ func GenerateWithdrawalHash
+//@   ensures r == leaf(bridgeId, l2Sequence, sender, receiver, denom, amount)                     // C17,C03: leaf_format
+//@   assigns \nothing
+
+//@ func GenerateNodeHash
+//@   requires len(a) == 32 && len(b) == 32
+//@   ensures r == node(a, b)                                                                      // C17,C03: node_format
+//@   assigns \nothing
+
+//@ func GenerateRootHashFromProofs
+//@   requires forall j int :: 0 <= j && j < len(proofs) ==> len(proofs[j]) == 32
+//@   ensures r == foldNode(old(data), arr(proofs), len(proofs))                                   // C17,C03: root_from_proofs
+//@   loop 0 invariant 0 <= $i && $i <= len(proofs)
+//@   loop 0 invariant data == foldNode(old(data), arr(proofs), $i)
+//@   assigns \nothing
+
+//@ func L2Denom
+//@   ensures r == l2denom(bridgeId, l1Denom)                                                      // C17,C10: l2denom_format
+//@   assigns \nothing
+
+//@ func BridgeAddress
+//@   ensures r == bridgeAddr(bridgeId)                                                            // C17,C01: bridge_address_format
+//@   assigns \nothing
+
+//@ func (MsgFinalizeTokenWithdrawal) Validate
+//@   ensures err == nil ==> addrOK(ac, msg.Sender) && addrOK(ac, msg.To) && len(msg.From) > 0                      // C04: addresses
+//@   ensures err == nil ==> validDenom(msg.Amount.Denom) && msg.Amount.Amount > 0                                  // C04: amount_positive
+//@   ensures err == nil ==> msg.Sequence != 0 && msg.BridgeId != 0 && msg.OutputIndex != 0                         // C03: ids_nonzero
+//@   ensures err == nil ==> len(msg.Version) == 1 && len(msg.StorageRoot) == 32 && len(msg.LastBlockHash) == 32    // C03: lengths
+//@   ensures err == nil ==> forall j int :: 0 <= j && j < len(msg.WithdrawalProofs) ==> len(msg.WithdrawalProofs[j]) == 32   // C03: proof_lengths
+//@   loop 0 invariant 0 <= $i && $i <= len(msg.WithdrawalProofs)
+//@   loop 0 invariant forall j int :: 0 <= j && j < $i ==> len(msg.WithdrawalProofs[j]) == 32
